@@ -3,6 +3,7 @@ package main
 import (
 	"math/rand"
 	"sort"
+	"strconv"
 	"strings"
 
 	"github.com/evolbioinfo/goalign/align"
@@ -61,11 +62,32 @@ func runAcr(s *STree, rot int, tipstates map[string]string, algoName string, alg
 	ev := &CEvent{Kind: "Parsimony", Prop: "C12", Case: label, Trees: []*PTree{p},
 		Args: map[string]interface{}{"algo": algoName, "alphabet": alphabet, "tips": tips}}
 	ev.guard(calcTimeout, func() error {
-		_, nsteps, err := acr.ParsimonyAcr(t, tipstates, algo, false)
+		m, nsteps, err := acr.ParsimonyAcr(t, tipstates, algo, false)
 		if err != nil {
 			return err
 		}
-		ev.Res = map[string]interface{}{"steps": nsteps, "states": acrStates(p)}
+		// the returned map: key = node name, or its rank in the depth-first enumeration when it has none
+		byNode := [][]string{}
+		rank := map[*tree.Node]int{}
+		for i, n := range t.Nodes() {
+			rank[n] = i
+		}
+		for _, n := range p.nodes {
+			key := n.Name()
+			if key == "" {
+				key = strconv.Itoa(rank[n])
+			}
+			v, ok := m[key]
+			switch {
+			case n.Tip():
+				byNode = append(byNode, []string{"tip"})
+			case !ok:
+				byNode = append(byNode, []string{"missing"})
+			default:
+				byNode = append(byNode, strings.Split(v, ","))
+			}
+		}
+		ev.Res = map[string]interface{}{"steps": nsteps, "states": acrStates(p), "bymap": byNode}
 		return nil
 	})
 	return ev
